@@ -57,17 +57,20 @@ def rotate_subgraph(graph, anchor, reference, target, points, angle=120):
 
 def check_and_fix_cis_trans(graph, points):
     cis_trans = nx.get_node_attributes(graph, 'ez_isomer')
+    # node keys are only required to be hashable, so they cannot be
+    # compared with each other; their position in the graph can
+    node_order = {node: idx for idx, node in enumerate(graph.nodes)}
     for  cis_trans_item in cis_trans.values():
         for n1, n2, n3, n4, _type in cis_trans_item:
             angle_init = _angle(n1, n2, n3, points)
             angle_compl = _angle(n4, n3, n2, points)
             if _type == 'trans' and np.isclose(angle_init,120, atol=10):
                 continue
-            if _type  == 'cis' and n1 < n4 and np.isclose(angle_init, 120, atol=10):
+            if _type  == 'cis' and node_order[n1] < node_order[n4] and np.isclose(angle_init, 120, atol=10):
                 continue
             if _type == 'trans':
                 angle = 120
-            elif n1 < n4:
+            elif node_order[n1] < node_order[n4]:
                 angle = 120
             else:
                 angle = 240
